@@ -24,7 +24,8 @@ CLAIMS = {
          "Known finding D24 (blocking frame reader allocates up to the configured 1 MiB cap before the octets arrive) is carved out and replayed. Repaired: D4, D5, D6, D8, D9, D10, D13, D15, D16a-c, D17a-b, D25.",
          "Allocation is counted in octets requested from make/append/copy-out models, not measured; wall-clock time is represented by termination plus loop variants bounded by the input length. Callees outside the repository are assumed total (A-EXT). "),
  "C12": ("Ownership as a ghost predicate: fresh(x) = the backing memory of x was allocated inside the call and is not owned by a pool. Proved: Writer.Bytes/BytesWithLength, TLV.Bytes, Option.Bytes, every IEncode (err == nil => fresh(result)); "
-         "Reader.ReadNBytes and every []byte member / optional-parameter value stored by every IDecode, ReadTLVs, ReadTLVs1, ReadOptions, ParseOptions (loop invariant: the map built so far owns all its values). "
+         "Reader.ReadNBytes and every []byte member / optional-parameter value stored by every IDecode, ReadTLVs, ReadTLVs1, ReadOptions, ParseOptions (loop invariant: the map built so far owns all its values); every destination list ([]string member) a submit decoder stores is newly allocated or without backing memory when the object brought no capacity, "
+         "and - behaviour `reuse`, decoding into an object that already holds an earlier result - nothing is written through the list the object held on entry (kept(m)): slices carry an unknown spare capacity, append to foreign memory is explored as 'fits: in place' / 'reallocated'. "
          "A result that is fresh at return cannot be changed by any later call that does not receive it (separation of allocations), which is the history-independent form of the property. Repaired: D22 (SMGP submit option values aliased the input).",
          "Strings are immutable values in the model; the engine scans the SSA of the repository for unsafe string/slice conversions on every run (none), and strings.Builder/bytebufferpool String() are assumed to hand out immutable strings (A-STR). Frames returned by the zero-copy extractors are views by design and are not claimed fresh. The [][]byte results of the splitters are not covered. "),
  "C01": ("For each of the 57 PDU types (+ the CMPP status report) the table-derived contracts are proved on the real IEncode/IDecode: "
@@ -86,7 +87,7 @@ CLAIMS = {
          "(SMGP: cut to the field width; id: hex of the ten octets after `id:`), empty if the key is absent, never a panic; the CMPP status-report body (SubPduDeliveryContent) is proved like the PDUs of C01/C02. Repaired: D7.",
          "Assumed, not proved (A-TOK): that for receipts built from the eight keys in any order and subset the first occurrence of each key token is its field (a combinatorial fact about the fixed token set under the property's value restrictions). strings.Index is an assumed model. "),
  "C19": ("ToValidatePeriod proved for all parsable durations below 4096 h: zero -> empty string; negative or unparsable -> error; relative form = 0000 DD hh mm ss 000R with the four fields equal to the integer quotients of the nanosecond count, 16 characters, "
-         "and a lemma (pure integer arithmetic) that the fields add up to the duration in whole seconds; a relative period of 31 days or more is refused; absolute form = Format(now+d) ++ 000+, 16 characters. Repaired: D20.",
+         "and a lemma (pure integer arithmetic) that the fields add up to the duration in whole seconds; a relative period of 31 days or more is refused; absolute form = Format(now+d) ++ 000+, 16 characters, where the twelve digits are two each of year mod 100, month, day, hour, minute, second of the UTC wall clock (so a rewrite through Date()/Clock() and Sprintf is the same string). Repaired: D20.",
          "package time, fmt %02d and the float64 duration accessors are assumed models (A-TIMEPKG, A-FMT2, A-FLOAT: exact below 4096 h, nothing claimed above); the absolute form is pinned only as Format(now+d) ++ 000+ with d below 36500 days (an absolute period of 36500 days or more is refused: D27, repaired); that the two-digit year then denotes the intended instant rests on the reader interpreting it within the coming century. "),
  "C20": ("Contracts on every method of packet.Writer and packet.Reader (append-only view, written==len(view) invariant, sticky errors, readers never return more than remains, "
          "observer-form clauses used by the PDU level) proved against the SSA of the real bodies; the T1 bridge lemmas 'read primitive inverts write primitive' are re-proved from T0 on every run. "
